@@ -1,7 +1,7 @@
 (* Props/C01.v — Formula operators keep their Excel meaning.  Statements only. *)
 Require Import X2P.Base.Prelude X2P.Base.F64 X2P.Base.PyCmp X2P.Base.PyNum X2P.Base.PyArith.
 Require Import X2P.Model.Peg X2P.Model.Emit X2P.Gen.Grammar X2P.Spec.Formula X2P.Spec.Shape X2P.Corr.C01.
-Require Import X2P.Proofs.FormulaSweep X2P.Proofs.FormulaSweep7 X2P.Proofs.FormulaProofs X2P.Proofs.FormulaRefute X2P.Proofs.FormulaCore X2P.Proofs.FormulaGrammar.
+Require Import X2P.Proofs.FormulaSweep X2P.Proofs.FormulaSweep7 X2P.Proofs.FormulaProofs X2P.Proofs.FormulaRefute X2P.Proofs.FormulaCore X2P.Proofs.FormulaGrammar X2P.Proofs.FormulaAccepts.
 Open Scope string_scope.
 
 (* the precedence / associativity table, kernel-exhaustive: for EVERY sequence of 1..7 tokens over {atom + - * / & < % ( )} that Excel
@@ -39,6 +39,14 @@ Theorem C01_core_inhabited :
       | _ => false end
   | _ => false end = true.
 Proof. exact core_example. Qed.
+
+(* COMPLETENESS for the core fragment (unbounded): every well-formed expression over literal atoms, brackets and binary + - * / — any
+   length, any nesting — printed as a token list, is accepted by AstBuilder over the regenerated grammar table (every token consumed,
+   for all sufficiently large recursion limits), and the tree it builds is a core tree: the two theorems above and below apply to it *)
+Theorem C01_core_formula_accepted : forall e, wf_expr e = true ->
+  exists f0, forall f, (f0 <= f)%nat ->
+    ast_builder grammar_table is_cc N_ExpressionToken f (pr_expr e) = AOk (tree_expr e) /\ core (S (size_expr e)) (tree_expr e) = true.
+Proof. exact core_formula_accepted. Qed.
 
 (* UNBOUNDED GROUPING THEOREM: for every core tree — any size, any nesting depth — Python's reading of the emitted text (regroup, on the
    structured text with nested bracket groups) builds exactly the tree that the standard precedence grammar G (unary sign > * / > + -,
